@@ -176,7 +176,20 @@ impl Property for C10 {
             5 => (json_value(false), proptest::collection::vec(entropy(), 2..5)),
             1 => (json_value(true), proptest::collection::vec(entropy(), 1..3)),
         ]
-        .prop_flat_map(|(value, spellings)| prop_oneof![2 => Just(false), 1 => Just(true)].prop_map(move |signed_first| Spec { value: value.clone(), spellings: spellings.clone(), signed_first }))
+        .prop_flat_map(|(value, spellings)| {
+            // cardinality tail: the value wrapped in many levels of arrays / objects, or repeated many times side by side
+            (prop_oneof![2 => Just(false), 1 => Just(true)], prop_oneof![120 => Just((0usize, 0usize)), 1 => (prop_oneof![Just(20usize), Just(63), Just(64), Just(65), Just(66), Just(100), Just(120)], Just(0usize)), 1 => (Just(0usize), prop_oneof![Just(17usize), Just(65), Just(129), Just(300)])], any::<u8>())
+                .prop_map(move |(signed_first, (depth, width), shape)| {
+                    let mut v = value.clone();
+                    if width > 0 {
+                        v = if shape % 2 == 0 { J::Arr(vec![v; width]) } else { J::Obj((0..width).map(|i| (format!("k{:04}", i), v.clone())).collect()) };
+                    }
+                    for d in 0..depth {
+                        v = if (shape as usize + d) % 3 == 0 { J::Obj(vec![("n".to_string(), v)]) } else { J::Arr(vec![v]) };
+                    }
+                    Spec { value: v, spellings: spellings.clone(), signed_first }
+                })
+        })
         .boxed()
     }
     fn enumerate(_tier: Tier, worker: usize, workers: usize) -> Box<dyn Iterator<Item = Spec>> {
